@@ -272,6 +272,13 @@ cov_sample(const char *cls, const char *fmt, ...)
 void
 cov_count(const char *name, uint64_t n)
 {
+        /* fast path without the lock: counters are only ever appended */
+        int nc = __atomic_load_n(&ncounters, __ATOMIC_ACQUIRE);
+        for (int i = 0; i < nc; i++)
+                if (!strcmp(counters[i].name, name)) {
+                        __atomic_fetch_add(&counters[i].n, n, __ATOMIC_RELAXED);
+                        return;
+                }
         pthread_mutex_lock(&cov_mu);
         int i;
         for (i = 0; i < ncounters; i++)
@@ -279,10 +286,11 @@ cov_count(const char *name, uint64_t n)
                         break;
         if (i == ncounters && ncounters < (int) ARRAY_SZ(counters)) {
                 snprintf(counters[i].name, sizeof counters[i].name, "%s", name);
-                ncounters++;
+                counters[i].n = 0;
+                __atomic_store_n(&ncounters, ncounters + 1, __ATOMIC_RELEASE);
         }
         if (i < ncounters)
-                counters[i].n += n;
+                __atomic_fetch_add(&counters[i].n, n, __ATOMIC_RELAXED);
         pthread_mutex_unlock(&cov_mu);
 }
 void
